@@ -12,3 +12,155 @@ package nutsdb
 //@   ensures[C01,C19] result == expiredAt(ttl, timestamp, clock)
 //@   modifies nothing
 //@   safety[C01,C20] panics overflow
+
+// ---------------------------------------------------------------------------
+// Record codecs (C21). The on-disk format of a data entry, stated once and used by
+// the encoder and the decoder contracts:
+//   [0,4) crc  [4,12) timestamp  [12,16) keySize  [16,20) valueSize  [20,22) Flag  [22,26) TTL
+//   [26,30) bucketSize  [30,32) status  [32,34) ds  [34,42) txID  then bucket, key, value
+
+//@ spec func hdrOf(b []byte, o int, m *MetaData) bool = le64(b, o + 4) == m.timestamp && le32(b, o + 12) == m.keySize &&
+//@        le32(b, o + 16) == m.valueSize && le16(b, o + 20) == m.Flag && le32(b, o + 22) == m.TTL && le32(b, o + 26) == m.bucketSize &&
+//@        le16(b, o + 30) == m.status && le16(b, o + 32) == m.ds && le64(b, o + 34) == m.txID
+//@ spec func entryWF(e *Entry) bool = e != nil && e.Meta != nil && e.Meta.keySize == len(e.Key) && e.Meta.valueSize == len(e.Value) &&
+//@        e.Meta.bucketSize == len(e.Meta.bucket) && 42 + len(e.Key) + len(e.Value) + len(e.Meta.bucket) < 4294967296
+//@ spec func crcOfParts(hdr []byte, bucket []byte, key []byte, value []byte) int = crcUpd(crcUpd(crcUpd(crcUpd(0, string(hdr[4:])), string(bucket)), string(key)), string(value))
+
+//@ func Entry.Size
+//@   requires e != nil && e.Meta != nil && 42 + e.Meta.keySize + e.Meta.valueSize + e.Meta.bucketSize < 4294967296
+//@   ensures[C21] result == 42 + e.Meta.keySize + e.Meta.valueSize + e.Meta.bucketSize
+//@   modifies nothing
+//@   safety[C20,C21] panics overflow
+//@   pure
+
+//@ func Entry.Encode
+//@   requires entryWF(e)
+//@   ensures[C21] len(result) == 42 + len(e.Meta.bucket) + len(e.Key) + len(e.Value) && fresh(result)
+//@   ensures[C21] hdrOf(result, 0, e.Meta)
+//@   ensures[C21] forall j int :: 0 <= j && j < len(e.Meta.bucket) ==> result[42 + j] == e.Meta.bucket[j]
+//@   ensures[C21] forall j int :: 0 <= j && j < len(e.Key) ==> result[42 + len(e.Meta.bucket) + j] == e.Key[j]
+//@   ensures[C21] forall j int :: 0 <= j && j < len(e.Value) ==> result[42 + len(e.Meta.bucket) + len(e.Key) + j] == e.Value[j]
+//@   ensures[C21] le32(result, 0) == crcUpd(0, string(result[4:]))
+//@   modifies nothing
+//@   safety[C20,C21] panics overflow
+
+//@ func readMetaData
+//@   requires len(buf) >= 42
+//@   ensures[C21] fresh(result) && hdrOf(buf, 0, result) && len(result.bucket) == 0
+//@   modifies nothing
+//@   safety[C20,C21] panics
+
+//@ func Entry.IsZero
+//@   requires e != nil && e.Meta != nil
+//@   ensures[C21,C09] result == (e.crc == 0 && e.Meta.keySize == 0 && e.Meta.valueSize == 0 && e.Meta.timestamp == 0)
+//@   modifies nothing
+//@   safety[C20,C21] panics
+//@   pure
+
+//@ func Entry.GetCrc
+//@   requires e != nil && e.Meta != nil && len(buf) >= 4
+//@   ensures[C21] result == crcOfParts(buf, e.Meta.bucket, e.Key, e.Value)
+//@   modifies nothing
+//@   safety[C20,C21] panics
+//@   pure
+
+// The two RWManager implementations behind one interface contract (C19): what DataFile.ReadAt may rely on.
+//@ func RWManager.ReadAt (rw, b, off) (n, err)
+//@   ensures 0 <= n && n <= len(b)
+//@   modifies elems(b)
+
+//@ func DataFile.ReadAt
+//@   requires df != nil && df.rwManager != nil
+//@   ensures[C21,C09] err != nil ==> e == nil
+//@   at return: assert[C21] e != nil && err == nil ==> fresh(e) && e.Meta != nil && hdrOf(buf, 0, e.Meta) && e.crc == le32(buf, 0) &&
+//@        e.crc == crcOfParts(buf, e.Meta.bucket, e.Key, e.Value) &&
+//@        len(e.Meta.bucket) == e.Meta.bucketSize && len(e.Key) == e.Meta.keySize && len(e.Value) == e.Meta.valueSize
+//@   modifies nothing
+//@   safety[C20,C21] panics
+
+// ---- os.File as seen by the codecs (assumed contracts on the dependency)
+//@ extern os.File.ReadAt (f, b, off) (n, err)
+//@   ensures 0 <= n && n <= len(b) && (err == nil ==> n == len(b))
+//@   modifies elems(b)
+//@ extern os.File.Close (f) (err)
+//@   modifies nothing
+//@ extern os.OpenFile (name, flag, perm) (f, err)
+//@   ensures err == nil ==> f != nil
+//@   modifies nothing
+
+// ---- sparse-mode root index record: [0,4) crc [4,12) fID [12,20) rootOff [20,24) startSize [24,28) endSize, start, end
+//@ spec func rootHdrOf(b []byte, r *BPTreeRootIdx) bool = le64(b, 4) == r.fID && le64(b, 12) == r.rootOff && le32(b, 20) == r.startSize && le32(b, 24) == r.endSize
+//@ spec func rootWF(r *BPTreeRootIdx) bool = r != nil && r.startSize == len(r.start) && r.endSize == len(r.end)
+
+//@ func BPTreeRootIdx.Size
+//@   requires bri != nil
+//@   ensures[C21] result == 28 + bri.startSize + bri.endSize
+//@   modifies nothing
+//@   safety[C20,C21] panics overflow
+//@   pure
+
+//@ func BPTreeRootIdx.Encode
+//@   requires rootWF(bri)
+//@   ensures[C21] len(result) == 28 + len(bri.start) + len(bri.end) && fresh(result) && rootHdrOf(result, bri)
+//@   ensures[C21] forall j int :: 0 <= j && j < len(bri.start) ==> result[28 + j] == bri.start[j]
+//@   ensures[C21] forall j int :: 0 <= j && j < len(bri.end) ==> result[28 + len(bri.start) + j] == bri.end[j]
+//@   ensures[C21] le32(result, 0) == crcUpd(0, string(result[4:]))
+//@   modifies nothing
+//@   safety[C20,C21] panics overflow
+
+//@ func BPTreeRootIdx.GetCrc
+//@   requires bri != nil && len(buf) >= 4
+//@   ensures[C21] result == crcUpd(crcUpd(crcUpd(0, string(buf[4:])), string(bri.start)), string(bri.end))
+//@   modifies nothing
+//@   safety[C20,C21] panics
+//@   pure
+
+//@ func BPTreeRootIdx.IsZero
+//@   requires bri != nil
+//@   ensures[C21] result == (bri.crc == 0 && bri.rootOff == 0 && bri.fID == 0 && bri.startSize == 0 && bri.endSize == 0)
+//@   modifies nothing
+//@   safety[C20,C21] panics
+//@   pure
+
+//@ func ReadBPTreeRootIdxAt
+//@   requires fd != nil
+//@   ensures[C21] result1 != nil ==> result0 == nil
+//@   at return: assert[C21] result0 != nil && result1 == nil ==> fresh(bri) && bri == result0 && rootHdrOf(buf, bri) && bri.crc == le32(buf, 0) &&
+//@        bri.crc == crcUpd(crcUpd(crcUpd(0, string(buf[4:])), string(bri.start)), string(bri.end)) &&
+//@        len(bri.start) == bri.startSize && len(bri.end) == bri.endSize
+//@   modifies nothing
+//@   safety[C20,C21] panics
+
+// ---- bucket meta record: [0,4) crc [4,8) startSize [8,12) endSize, start, end
+//@ spec func metaWF(m *BucketMeta) bool = m != nil && m.startSize == len(m.start) && m.endSize == len(m.end) && 12 + len(m.start) + len(m.end) < 4294967296
+
+//@ func BucketMeta.Size
+//@   requires bm != nil && 12 + bm.startSize + bm.endSize < 4294967296
+//@   ensures[C21] result == 12 + bm.startSize + bm.endSize
+//@   modifies nothing
+//@   safety[C20,C21] panics overflow
+//@   pure
+
+//@ func BucketMeta.Encode
+//@   requires metaWF(bm)
+//@   ensures[C21] len(result) == 12 + len(bm.start) + len(bm.end) && fresh(result) && le32(result, 4) == bm.startSize && le32(result, 8) == bm.endSize
+//@   ensures[C21] forall j int :: 0 <= j && j < len(bm.start) ==> result[12 + j] == bm.start[j]
+//@   ensures[C21] forall j int :: 0 <= j && j < len(bm.end) ==> result[12 + len(bm.start) + j] == bm.end[j]
+//@   ensures[C21] le32(result, 0) == crcUpd(0, string(result[4:]))
+//@   modifies nothing
+//@   safety[C20,C21] panics overflow
+
+//@ func BucketMeta.GetCrc
+//@   requires bm != nil && len(buf) >= 4
+//@   ensures[C21] result == crcUpd(crcUpd(crcUpd(0, string(buf[4:])), string(bm.start)), string(bm.end))
+//@   modifies nothing
+//@   safety[C20,C21] panics
+//@   pure
+
+//@ func ReadBucketMeta
+//@   ensures[C21] err != nil ==> bucketMeta == nil
+//@   at return: assert[C21] bucketMeta != nil && err == nil ==> fresh(bucketMeta) && le32(buf, 4) == bucketMeta.startSize && le32(buf, 8) == bucketMeta.endSize &&
+//@        bucketMeta.crc == le32(buf, 0) && bucketMeta.crc == crcUpd(crcUpd(crcUpd(0, string(buf[4:])), string(bucketMeta.start)), string(bucketMeta.end)) &&
+//@        len(bucketMeta.start) == bucketMeta.startSize && len(bucketMeta.end) == bucketMeta.endSize
+//@   modifies nothing
+//@   safety[C20,C21] panics
